@@ -59,7 +59,7 @@ CHECKS = {
         "level": "exploration",
         "manifest": {
             "technique": "differential property-based testing (rapid) across optimisation levels: the same generated route body compiled at O0/O1/O2 from parser-form, pointer-form and mixed ASTs, executed on the VM under generated bindings of its free variables",
-            "level_text": "Route bodies biased towards what the optimizer rewrites (literal and copy assignments, reassignments, x*0/x+0/x*1/x*2/true&&x shapes, constant conditions, loops, branches, switch, match) are parsed, converted to the AST form the library API accepts (pointer nodes, which is the only form the optimizer touches; also mixed and the parser's value form), compiled at every level and executed under 1-3 generated bindings (any runtime kind for the free variables); compile outcome, runtime error-ness and result value (int/float kept apart) must equal the unoptimised compilation. Three unsound rewrites pinned by the repository's own tests are recorded as findings, switched off in pointer-form generation, and attributed by a delta check (the difference must vanish when the finding's shape is neutralised).",
+            "level_text": "Route bodies biased towards what the optimizer rewrites (literal and copy assignments, reassignments, x*0/x+0/x*1/x*2/true&&x shapes, constant conditions, loops, branches, switch, match) are parsed, converted to the AST form the library API accepts (pointer nodes, which is the only form the optimizer touches; also mixed and the parser's value form), compiled at every level and executed under 1-3 generated bindings (any runtime kind for the free variables); compile outcome, runtime error-ness and result value (int/float kept apart) must equal the unoptimised compilation. Three unsound rewrites pinned by the repository's own tests are recorded as findings, switched off in pointer-form generation, and attributed by a delta check (the difference must vanish when the finding's shape is neutralised). Every two-route module is also compiled with ONE compiler per level in both orders (what setupRoutes and JIT callers do); bodies contain ws.send / broadcast / join / leave statements and reads of hub state, executed against a recording handler, and the recorded call sequence must be the same at every level; CSE near-duplicates (the same small operator expression again, also with swapped operands) and int-vs-float literal comparisons are generated on purpose.",
             "level_note": "Side effects other than the result are not observed (the only effectful bytecode is ws.*, which the generator does not emit). JIT tiers are covered under C15. With the three findings excluded, pointer-form programs are well typed, use total operators only and have variable-dependent conditions.",
         },
         "rule": ("rapid-generated route bodies (<=2 routes, depth <=4, nesting <=3) in value / pointer / mixed AST form with 1-3 bindings of fv0..fv2; "
@@ -76,7 +76,7 @@ CHECKS = {
         "level": "exploration",
         "manifest": {
             "technique": "exhaustive small matrices (operators, builtins, statement positions x operand kinds) plus property-based testing with heavily ill-typed generated programs, all served through the real HTTP handlers in both execution modes; by-construction non-terminating and memory-doubling programs under a watchdog",
-            "level_text": "Every binary/unary operator, every builtin at arity 0-3 and every statement position is exercised with every operand kind (null, bool, int, float, string, array, object, extreme and zero values) in both modes (about 50k enumerated cases per run), then generated programs with 35% ill-typed operands: the handler must not panic (net/http would drop the connection), the status must be 2xx/4xx/5xx, a 5xx body must be exactly the generic one, no 4xx/5xx body may carry Go text (types, file:line, runtime error, %!...), and where the reference evaluator says the evaluation faults the interpreter must not answer 2xx. Non-terminating and size-doubling programs must end in a 5xx within a 100 s watchdog; a hang or a dead worker process is attributed through the journal.",
+            "level_text": "Every binary/unary operator, every builtin at arity 0-3 and every statement position is exercised with every operand kind (null, bool, int, float, string, array, object, extreme and zero values) in both modes (about 50k enumerated cases per run), then generated programs with 35% ill-typed operands: the handler must not panic (net/http would drop the connection), the status must be 2xx/4xx/5xx, a 5xx body must be exactly the generic one, no 4xx/5xx body may carry Go text (types, file:line, runtime error, %!...), and where the reference evaluator says the evaluation faults the interpreter must not answer 2xx. Non-terminating and size-doubling programs must end in a 5xx within a 100 s watchdog; a hang or a dead worker process is attributed through the journal. The matrices also take operands that arrive with the request (repeated undeclared query parameter, auto-converted parameter, header), a module function used as a value, and `? f(x)` validation statements whose checked call faults: a fault is a 5xx, never a 4xx (compared with the same call as a plain expression).",
             "level_note": "The matrices are exhaustive for the listed kinds only; provider-call faults are covered under C12, parser depth under C10. The hang verdict is the one place a time budget decides (the programs have no finite semantics); the budget is 100x the interpreter's own loop bound on this machine.",
         },
         "rule": ("enumerated matrix cases (13 binary operators x 13x13 operand kinds, 2 unary, 19 statement positions, every interpreter builtin x arity 0..3) x 2 modes, "
@@ -96,7 +96,7 @@ CHECKS = {
         "level": "exploration",
         "manifest": {
             "technique": "model-based property-based testing (rapid) of route tables with engineered overlap against a reference router, at the library router and through the full server stack in both execution modes",
-            "level_text": "Tables of 1-8 declarations (same pattern under several methods, static vs parameter at the same position in both orders, exact duplicates, root, hyphenated segments) and requests derived from them are checked at two levels: Router.Match must pick exactly the declaration the reference picks (same method, fewest parameters, earliest on ties) with the right parameter binding, and the module served through setupRoutes/createHandler behind a ServeMux - compiled and interpreted - must answer 200 with that declaration's marker and bindings, or 404 with no marker when nothing matches. Odd paths (trailing slash, //, %2F, case, dot segments) only have to agree between modes, never 5xx, and never run a body of another method.",
+            "level_text": "Tables of 1-8 declarations (same pattern under several methods, static vs parameter at the same position in both orders, exact duplicates, root, hyphenated segments) and requests derived from them are checked at two levels: Router.Match must pick exactly the declaration the reference picks (same method, fewest parameters, earliest on ties) with the right parameter binding, and the module served through setupRoutes/createHandler behind a ServeMux - compiled and interpreted - must answer 200 with that declaration's marker and bindings, or 404 with no marker when nothing matches. Odd paths (trailing slash, //, %2F, case, dot segments) only have to agree between modes, never 5xx, and never run a body of another method. 15% of the tables have 9-40 declarations, mostly under one method; odd paths include encoded percent signs (%2541, %252F).",
             "level_note": "Trusts the 25-line reference router in inpkg/cmdglyph/c05_test.go. Patterns use distinct parameter names (a repeated name has no defined binding). Requests are delivered through httptest, not a socket.",
         },
         "rule": ("rapid-generated route tables (1-8 declarations over 6 static segments, 3 parameter names, 5 methods; 60% derived from an earlier declaration by method change, static<->parameter flip, duplication or renaming) with 1-6 requests; "
@@ -139,7 +139,7 @@ CHECKS = {
         "level": "exploration",
         "manifest": {
             "technique": "differential property testing (rapid): every request's response under N-way concurrency against its response when its client runs alone on a fresh server; provider atomicity and isolation oracles; the same histories under the race detector",
-            "level_text": "White-box through the real request path (parseSource -> setupRoutes -> createHandler, default mode and --interpret): one module made of generated pure routes (the harness's typed program generator, with user functions) plus fixed route families that reach the shared state the property names: a recursive function (evaluation-depth budget), generic functions called with int and string arguments (generic type scope), CRUD and read-modify-locally routes on the mock database, per-client and shared Redis counters, a record every client reads and renames. 2-10 clients each run 1-8 requests (and create/get/put/get/delete/get and create/get/preview/get scripts) on disjoint keys. Oracle: each client first runs alone on a fresh server; then all clients run at once on one long-lived server and every response (status and JSON body) must equal the alone response; reads of the shared record must be well-formed and carry a name some request wrote; concurrent redis.incr results on one key must be pairwise distinct and the final counter must equal the number of increments; alone, a get after requests that only changed a local copy of the fetched record must return what the get before returned. A handler panic, a request that does not finish, process death (attributed through the journal) and any race-detector report are violations.",
+            "level_text": "White-box through the real request path (parseSource -> setupRoutes -> createHandler, default mode and --interpret): one module made of generated pure routes (the harness's typed program generator, with user functions) plus fixed route families that reach the shared state the property names: a recursive function (evaluation-depth budget), generic functions called with int and string arguments (generic type scope), CRUD and read-modify-locally routes on the mock database, per-client and shared Redis counters, a record every client reads and renames. 2-10 clients each run 1-8 requests (and create/get/put/get/delete/get and create/get/preview/get scripts) on disjoint keys. Oracle: each client first runs alone on a fresh server; then all clients run at once on one long-lived server and every response (status and JSON body) must equal the alone response; reads of the shared record must be well-formed and carry a name some request wrote; concurrent redis.incr results on one key must be pairwise distinct and the final counter must equal the number of increments; alone, a get after requests that only changed a local copy of the fetched record must return what the get before returned. A handler panic, a request that does not finish, process death (attributed through the journal) and any race-detector report are violations. The deep recursion is reached through every way of calling a function (direct, map/reduce callback, pipe, generic call, async blocks). Redis keys whose TTL has run out are read and rewritten at the same time: once a client has written a key (no TTL, nothing deletes it) its own reads return a written value; a storm unit repeats that window 20-60 times per case.",
             "level_note": "Responses that legitimately depend on other clients (the shared counter and the shared record) are judged by validity predicates, not by equality with the alone run. The race unit runs the same generator under -race with GORACE=halt_on_error so the first report stops the process and the journal names the case.",
         },
         "rule": ("a case is a module, a mode and 2-10 client request scripts; non-trivial = at least 2 clients in flight (every case); distinct = hash of the case; labels record the route families exercised"),
@@ -154,7 +154,7 @@ CHECKS = {
         "level": "exploration",
         "manifest": {
             "technique": "property-based testing (rapid): generated async/await programs run repeatedly and concurrently in both execution modes against the value their sequential reading gives; model-based testing of the Future API and its All/Race/Any combinators with a harness-owned settle schedule; all under the race detector as well",
-            "level_text": "Programs: a route declares two base variables, spawns 1-4 async blocks drawn from templates (straight-line, if/else with returns, while loop, for loop, nested async+await, object result, loops and branches with a nested block, division by zero), each followed by 0-4 parent statements that keep declaring and assigning the parent's own variables (including loops) while the blocks run, then awaits the blocks in a generated order, possibly several times each, possibly not at all. The expected response is computed in Go from the template parameters. Each case runs 4-15 times in sequence and 18 more times from 6 concurrent requests, through the real request path in the default (compiled) mode or --interpret; every response must equal the expected one (or be a 5xx when an awaited block raises), no handler may panic, nothing may block, and the goroutine count returns to its start-up value. Futures: 1-5 futures, 0-3 awaiters each (awaiting twice), a combinator (All, Race, Any or none) created before or after some futures are settled, and steps that resolve/reject/cancel a future with 1-3 calls, sequentially (first wins) or from goroutines at once (any one of them wins, and never changes); after each step the model states each future's outcome (including the cancellations All and Race perform) and whether the combinator must be pending or settled with which value. Process death and race-detector reports are violations.",
+            "level_text": "Programs: a route declares two base variables, spawns 1-4 async blocks drawn from templates (straight-line, if/else with returns, while loop, for loop, nested async+await, object result, loops and branches with a nested block, division by zero), each followed by 0-4 parent statements that keep declaring and assigning the parent's own variables (including loops) while the blocks run, then awaits the blocks in a generated order, possibly several times each, possibly not at all. The expected response is computed in Go from the template parameters. Each case runs 4-15 times in sequence and 18 more times from 6 concurrent requests, through the real request path in the default (compiled) mode or --interpret; every response must equal the expected one (or be a 5xx when an awaited block raises), no handler may panic, nothing may block, and the goroutine count returns to its start-up value. Futures: 1-5 futures, 0-3 awaiters each (awaiting twice), a combinator (All, Race, Any or none) created before or after some futures are settled, and steps that resolve/reject/cancel a future with 1-3 calls, sequentially (first wins) or from goroutines at once (any one of them wins, and never changes); after each step the model states each future's outcome (including the cancellations All and Race perform) and whether the combinator must be pending or settled with which value. Process death and race-detector reports are violations. Blocks may call a recursive module function 10-140 levels deep, several at a time. Leftover goroutines are judged by their stacks (still inside pkg/vm or pkg/interpreter), not by a count.",
             "level_note": "Blocks read only variables the parent does not assign after the spawn: the property is about programs whose blocks communicate through await only. Block-local names are unique per route because the compiler keeps one symbol table per route. A Race or Any created over several already-settled futures may pick any of them. Goroutine accounting for Any is skipped: its helper goroutines wait for futures that legitimately stay pending.",
         },
         "rule": ("programs: non-trivial = at least one block has parent statements running after its spawn and at least one await (distinct = hash of the case); futures: non-trivial = a combinator and at least one settle step"),
@@ -188,7 +188,7 @@ CHECKS = {
         "level": "exploration",
         "manifest": {
             "technique": "model-based property-based testing (rapid) of timed request histories on a virtual clock against the bucket bounds of the property, plus complete enumeration of a small sub-space; CLI stack in both modes and the library middleware under every trust-proxy setting",
-            "level_text": "Histories of up to 40 steps (gaps of 0, a sliver, ceil(window/N), window/2, a window, ten windows; 1-3 clients with varying ports; forged X-Forwarded-For / X-Real-IP; concurrent bursts at one virtual instant) are sent to a route declaring + ratelimit(N/unit). Upper bound: for every client and every pair of admitted requests, count <= N*(1 + T/window). Lower bound and isolation: replaying only that client's requests on a pessimistic integer bucket (fractions discarded at every gap), whatever it admits must have been admitted, whatever other clients or forged headers did. 429 never carries the body's marker; the unlimited sibling route is never affected. All histories of length <= 4 over N in {1,2,3}, two clients and four gaps are enumerated completely. Library level: the same bounds per client identity under TrustProxy on/off and three trusted-proxy lists.",
+            "level_text": "Histories of up to 40 steps (gaps of 0, a sliver, ceil(window/N), window/2, a window, ten windows; 1-3 clients with varying ports; forged X-Forwarded-For / X-Real-IP; concurrent bursts at one virtual instant) are sent to a route declaring + ratelimit(N/unit). Upper bound: for every client and every pair of admitted requests, count <= N*(1 + T/window). Lower bound and isolation: replaying only that client's requests on a pessimistic integer bucket (fractions discarded at every gap), whatever it admits must have been admitted, whatever other clients or forged headers did. 429 never carries the body's marker; the unlimited sibling route is never affected. All histories of length <= 4 over N in {1,2,3}, two clients and four gaps are enumerated completely. Library level: the same bounds per client identity under TrustProxy on/off and three trusted-proxy lists. Some library histories contain a crowd of up to 10300 other clients (one request each), which drives the limiter's per-client table through its sweep.",
             "level_note": "time.Now() in pkg/server/middleware.go is redirected by a generated overlay. Window units other than min are a recorded finding (the CLI rounds every unit to a per-minute budget and the repository's own test pins that), so generation uses min only while it is listed; the finding's witnesses are replayed on every run. The cleanup ticker and the 10k-entry eviction branch are not exercised.",
         },
         "rule": ("rapid-generated (N in 1..12, unit, mode, history of 1-40 steps) and the exhaustive small set; non-trivial = some client has both admitted and rejected requests, or at least two clients are interleaved; distinct = hash of the whole case"),
@@ -203,7 +203,7 @@ CHECKS = {
         "level": "exploration",
         "manifest": {
             "technique": "reflection-driven enumeration of every exported method of every provider object x spellings x call forms, plus property-based generation of argument vectors (rapid), with invocation counters on a probe provider and state snapshots on the real mock providers",
-            "level_text": "The method universe is read by reflection at run time from a probe provider (15 allow-listed names with assorted signatures, 11 unlisted ones such as Secret/Exec/Close/DropAll/Query/GetSecret/Gets) and from the objects the CLI injects (mock database + table handler, Redis mock, MongoDB mock + collection handler, HTTP client). Every method is called from GlyphLang source under 5-6 spellings (exact, lower, UPPER, lowerCamel, Title, random case flips) and 6 call forms (p.m(a), m(p, a), p.t.m(a), bare field p.m, through an object field, through a variable holding the sub-object) with argument vectors of arity 0-4 over null, bool, ints, float, strings, arrays, objects and nested values. A method whose name is not on the allow-list is never invoked (probe counters stay 0, no probe-only data in the response; real providers return an error and their observable state is unchanged); no call of any shape panics or hangs.",
+            "level_text": "The method universe is read by reflection at run time from a probe provider (15 allow-listed names with assorted signatures, 11 unlisted ones such as Secret/Exec/Close/DropAll/Query/GetSecret/Gets) and from the objects the CLI injects (mock database + table handler, Redis mock, MongoDB mock + collection handler, HTTP client). Every method is called from GlyphLang source under 5-6 spellings (exact, lower, UPPER, lowerCamel, Title, random case flips) and 6 call forms (p.m(a), m(p, a), p.t.m(a), bare field p.m, through an object field, through a variable holding the sub-object) with argument vectors of arity 0-4 over null, bool, ints, float, strings, arrays, objects and nested values. A method whose name is not on the allow-list is never invoked (probe counters stay 0, no probe-only data in the response; real providers return an error and their observable state is unchanged); no call of any shape panics or hangs. MongoDB collection methods are reached through collection(\"t1\") on seeded documents with array and object fields; a further provider is the real table handler (ORM + query builder) on an in-memory SQLite database with hostile column, operator and value arguments, where nothing outside the named table may be read or changed (sentinel table and schema).",
             "level_note": "The allow-list is read from pkg/interpreter/database.go in the working tree (CallMethod enforces the global list; the per-provider lists in providerMethods are never consulted - reported as an observation, not a violation). The LLM handler is not exercised (it needs a reachable endpoint). database.Handler over SQLite is covered under C13.",
         },
         "rule": ("enumerated matrix (every method x 5 spellings x 6 forms x 9 argument vectors) plus rapid-generated (provider, method, spelling, form, 0-4 arguments); non-trivial = the method is unlisted, or the call carries arguments (arity / kind mismatches); distinct = hash of the case"),
@@ -217,7 +217,7 @@ CHECKS = {
         "level": "exploration",
         "manifest": {
             "technique": "adversarial-string property-based testing (rapid) of every query-building entry point with a rejection oracle, a value-independence metamorphic oracle, a template tokeniser and execution against a real in-memory SQLite with a sentinel table",
-            "level_text": "Tables, columns, operators, sort directions, join types, column types and values are drawn from pools mixing valid spellings with quotes of every kind, comment markers, semicolons, NUL, newlines, unicode look-alikes and classic payloads, and fed to the query builder (Select/Where/OrderBy/Join/Limit/Offset), ORM Create/Update/Delete/Count/FindByID and, per dialect (SQLite, PostgreSQL and MySQL structs on a recording database/sql driver), BulkInsert, CreateTable, DropTable, TableExists, GetLastInsertID and the identifier sanitizers. (1) anything outside the safe grammar => an error and no statement reaches the driver; (2) the SQL text is identical for another value vector of the same shape, contains no value, and the bound arguments are exactly the values; (3) the text tokenises into template keywords, quoted identifiers that were supplied as identifiers, placeholders, numbers and punctuation only; (4) on a real SQLite the sentinel table, sqlite_master (apart from the named table) and the columns of other tables are unchanged, CreateTable yields exactly the named columns and Create stores hostile values verbatim.",
+            "level_text": "Tables, columns, operators, sort directions, join types, column types and values are drawn from pools mixing valid spellings with quotes of every kind, comment markers, semicolons, NUL, newlines, unicode look-alikes and classic payloads, and fed to the query builder (Select/Where/OrderBy/Join/Limit/Offset), ORM Create/Update/Delete/Count/FindByID and, per dialect (SQLite, PostgreSQL and MySQL structs on a recording database/sql driver), BulkInsert, CreateTable, DropTable, TableExists, GetLastInsertID and the identifier sanitizers. (1) anything outside the safe grammar => an error and no statement reaches the driver; (2) the SQL text is identical for another value vector of the same shape, contains no value, and the bound arguments are exactly the values; (3) the text tokenises into template keywords, quoted identifiers that were supplied as identifiers, placeholders, numbers and punctuation only; (4) on a real SQLite the sentinel table, sqlite_master (apart from the named table) and the columns of other tables are unchanged, CreateTable yields exactly the named columns and Create stores hostile values verbatim. Hostile identifiers and column types include confusables (one rune swapped for a letter that case folding maps onto ASCII, a look-alike of another script, a format character, invalid UTF-8) and mangled types (a `)` before its `(`, a second group, SQL behind a balanced tail).",
             "level_note": "White-box (package database) so that PostgresDB/MySQLDB can run on the recording driver. ORDER BY is judged by how the builder reads its two arguments (joined and split on blanks). Column types between the must-accept list and the must-reject rules are unspecified and only the execution oracle applies to them.",
         },
         "rule": ("rapid-generated calls (16 entry points x 3 dialects, 12% hostile identifiers, 25% hostile column types, hostile values); non-trivial = the call was rejected because of a hostile string, or accepted with a value containing a metacharacter, or is a CreateTable; distinct = hash of the case"),
@@ -246,7 +246,7 @@ CHECKS = {
         "level": "exploration",
         "manifest": {
             "technique": "model-based stateful property testing (rapid) of JIT call histories with a differential oracle against fresh OptNone compilation, plus concurrent histories under the race detector",
-            "level_text": "Each case holds one or two route names with up to three successive, independently generated definitions each (the harness's typed program generator, in the AST forms the optimizer rewrites), a hot-path threshold in {0,1,2,4,10} and a recompile window in {0,-1ns,1h}, and a history of up to 24 calls: CompileRoute, CompileRouteWithTypes (8 type maps, more than the 5-per-route limit), RecordExecution bursts around the threshold, RecordDeoptimization, CheckAdaptiveRecompilation, GetUnit, InvalidateCache, ClearCache, SetHotPathThreshold, SetRecompileWindow, and redefinition (the caller invalidates the name or clears the cache and from then on passes the new definition). Every bytecode the JIT returns or holds (CompileRoute, CompileRouteWithTypes, GetUnit) is executed on the VM for 1-3 variable bindings and must give the result of a fresh OptNone compilation of the name's current definition; a difference that equals an earlier definition's behaviour is reported as stale code. The concurrent unit runs 2-6 goroutines of such calls (no redefinition) on one JITCompiler under -race with the same oracle per call and at quiescence; any race-detector report is a violation.",
+            "level_text": "Each case holds one or two route names with up to three successive, independently generated definitions each (the harness's typed program generator, in the AST forms the optimizer rewrites), a hot-path threshold in {0,1,2,4,10} and a recompile window in {0,-1ns,1h}, and a history of up to 24 calls: CompileRoute, CompileRouteWithTypes (8 type maps, more than the 5-per-route limit), RecordExecution bursts around the threshold, RecordDeoptimization, CheckAdaptiveRecompilation, GetUnit, InvalidateCache, ClearCache, SetHotPathThreshold, SetRecompileWindow, and redefinition (the caller invalidates the name or clears the cache and from then on passes the new definition). Every bytecode the JIT returns or holds (CompileRoute, CompileRouteWithTypes, GetUnit) is executed on the VM for 1-3 variable bindings and must give the result of a fresh OptNone compilation of the name's current definition; a difference that equals an earlier definition's behaviour is reported as stale code. The concurrent unit runs 2-6 goroutines of such calls (no redefinition) on one JITCompiler under -race with the same oracle per call and at quiescence; any race-detector report is a violation. A sweep operation compiles one route for all eight type signatures in turn (more than a per-route specialization table keeps).",
             "level_note": "The optimised tiers run the AST optimizer, whose three recorded C03 findings are excluded by construction exactly as in the C03 check (total, well-typed operands; anchored conditions; no declarations in loop bodies), so a difference here is the JIT's or a new optimizer defect. Recompilation windows are driven with 0/-1ns (always elapsed) and 1h (never) instead of a virtual clock. Redefinition racing with compilation is not generated: the API gives no ordering between a compile that started before an invalidation and the invalidation itself.",
         },
         "rule": ("a case is a JIT call history; non-trivial = a route was redefined and then compiled again, or some call changed a unit's tier (sequential), or >= 2 goroutines (concurrent); distinct = hash of the case"),
@@ -260,7 +260,7 @@ CHECKS = {
         "level": "exploration",
         "manifest": {
             "technique": "model-based stateful property testing (rapid) of hub/connection histories against a reference model at every quiescent point, plus concurrent histories under the race detector with delivery and invariant oracles",
-            "level_text": "White-box (test files overlaid into pkg/websocket, no source change): a real Hub runs its loop; up to 6 Connections over real gorilla sockets, 1-3 rooms, MaxConnectionsPerHub in {0,2,3,4,100}, MaxConnectionsPerRoom in {0..3}, queue size in {1,2,3,8}, drop_oldest/drop_newest (block in the concurrent unit). Histories of up to 30 operations: connect (hub.register), disconnect (through the unregister channel as ReadPump does, or Connection.Close), operations from outside goroutines (JoinRoom, LeaveRoom, Send, Hub.Broadcast, Hub.BroadcastToRoom, RoomManager.BroadcastToRoom, also on already disconnected connections), messages whose handler runs inside the hub loop and performs join/leave/send/broadcast/room broadcast/close through the VMHandler adapter exactly as a compiled GlyphLang handler does, on-connect and on-disconnect handlers doing the same, and drains of a connection's queue. After every operation the hub is brought to quiescence (barrier event through the loop, all hub channels empty) and compared with the model: registration, each live connection's GetRooms against Room.Has in every room and against the model, room sizes and hub size against the limits, no unregistered connection in any room, and each drained queue equal to the model's queue (message by message, including the backpressure strategy). A hub-loop panic, a panic in a caller, or a barrier that does not return within 10 s (deadlock) are violations. Concurrent unit: 2-6 goroutines issue such operations simultaneously while a drainer plays the WritePumps and a monitor samples the limits; afterwards the same quiescent invariants, no duplicate delivery, direct messages only to their addressee, room messages only to connections that join that room somewhere in the history; every race-detector report is a violation. Wire unit: 1-5 real clients dial Server.HandleWebSocketWithPattern over loopback sockets (ReadPump/WritePump running, heartbeat on or off, hub limit 0/2/3/100, room limit 0-2) and run scripts of join_room / leave_room / room broadcast / broadcast / ping / close through the default protocol handlers, waiting for the server's confirmation of each join and leave; a room message that arrives while the server has confirmed the client is not in that room, or that is echoed to its sender, is a violation; afterwards hub size equals the number of open clients and never exceeds the limit, views equal memberships, no room lists an unregistered connection, and Hub.Shutdown returns. Storm unit: 3-8 registered connections run short join/leave scripts on rooms of capacity 1-3 simultaneously from a start barrier, 150 rounds per case (schedule exploration by repetition); after every round no room is over capacity and every connection's IsInRoom agrees with Room.Has.",
+            "level_text": "White-box (test files overlaid into pkg/websocket, no source change): a real Hub runs its loop; up to 6 Connections over real gorilla sockets, 1-3 rooms, MaxConnectionsPerHub in {0,2,3,4,100}, MaxConnectionsPerRoom in {0..3}, queue size in {1,2,3,8}, drop_oldest/drop_newest (block in the concurrent unit). Histories of up to 30 operations: connect (hub.register), disconnect (through the unregister channel as ReadPump does, or Connection.Close), operations from outside goroutines (JoinRoom, LeaveRoom, Send, Hub.Broadcast, Hub.BroadcastToRoom, RoomManager.BroadcastToRoom, also on already disconnected connections), messages whose handler runs inside the hub loop and performs join/leave/send/broadcast/room broadcast/close through the VMHandler adapter exactly as a compiled GlyphLang handler does, on-connect and on-disconnect handlers doing the same, and drains of a connection's queue. After every operation the hub is brought to quiescence (barrier event through the loop, all hub channels empty) and compared with the model: registration, each live connection's GetRooms against Room.Has in every room and against the model, room sizes and hub size against the limits, no unregistered connection in any room, and each drained queue equal to the model's queue (message by message, including the backpressure strategy). A hub-loop panic, a panic in a caller, or a barrier that does not return within 10 s (deadlock) are violations. Concurrent unit: 2-6 goroutines issue such operations simultaneously while a drainer plays the WritePumps and a monitor samples the limits; afterwards the same quiescent invariants, no duplicate delivery, direct messages only to their addressee, room messages only to connections that join that room somewhere in the history; every race-detector report is a violation. Wire unit: 1-5 real clients dial Server.HandleWebSocketWithPattern over loopback sockets (ReadPump/WritePump running, heartbeat on or off, hub limit 0/2/3/100, room limit 0-2) and run scripts of join_room / leave_room / room broadcast / broadcast / ping / close through the default protocol handlers, waiting for the server's confirmation of each join and leave; a room message that arrives while the server has confirmed the client is not in that room, or that is echoed to its sender, is a violation; afterwards hub size equals the number of open clients and never exceeds the limit, views equal memberships, no room lists an unregistered connection, and Hub.Shutdown returns. Storm unit: 3-8 registered connections run short join/leave scripts on rooms of capacity 1-3 simultaneously from a start barrier, 150 rounds per case (schedule exploration by repetition); after every round no room is over capacity and every connection's IsInRoom agrees with Room.Has. In the concurrent unit some connections belong to clients that stopped reading (nobody drains their queue), one of them flooded by a sender outside the hub loop, and they hang up later: whatever waited for room has to be released and the hub has to stay responsive.",
             "level_note": "A broadcast that finds a connection's queue full either drops the message or drops the connection; the model adopts whichever the hub chose. Handlers are generated with at most one queued (deferred) action, last in the handler, because the hub picks among its ready channels at random and two pending actions have no defined order. The rooms a connection lists after it was disconnected are not compared (they are kept on purpose for reconnection state). RoomManager.DeleteRoom/Clear are not part of the property's operation list and are not generated.",
         },
         "rule": ("a case is a history of hub/connection operations; non-trivial = some connection was disconnected or rejected, a join met a full room or a send met a full queue (sequential), or >= 2 goroutines (concurrent); distinct = hash of the case"),
@@ -276,7 +276,7 @@ CHECKS = {
         "level": "exploration",
         "manifest": {
             "technique": "property-based testing (rapid) over generated directory trees with symbolic links x URL paths x mount prefixes x options, with a content-token oracle computed by the harness",
-            "level_text": "Each case builds root/, outside/ and a sibling root-evil/ in a scratch directory; every regular file holds a unique token. Files, directories and symlinks of every kind (relative, absolute, ../, to files and directories inside and outside, dangling, self-referential, an index file that is a link) are created from the case, then StaticFileServer.ServeHTTP is called with hand-built url.URL paths (existing names, trailing slashes, names below link targets, dot-dot sequences, backslashes, doubled slashes, NUL bytes, the prefix repeated) under six mount prefixes, two index names and listing on/off, and ResponseHelper.SendFile with relative, absolute, empty and escaping targets. No response of any status may contain a token of a file outside the root; a 2xx body must be exactly the content of a regular file inside the root or a directory listing; other statuses must be 400/403/404/405; a plain file under a plain root must be served (non-vacuity).",
+            "level_text": "Each case builds root/, outside/ and a sibling root-evil/ in a scratch directory; every regular file holds a unique token. Files, directories and symlinks of every kind (relative, absolute, ../, to files and directories inside and outside, dangling, self-referential, an index file that is a link) are created from the case, then StaticFileServer.ServeHTTP is called with hand-built url.URL paths (existing names, trailing slashes, names below link targets, dot-dot sequences, backslashes, doubled slashes, NUL bytes, the prefix repeated) under six mount prefixes, two index names and listing on/off, and ResponseHelper.SendFile with relative, absolute, empty and escaping targets. No response of any status may contain a token of a file outside the root; a 2xx body must be exactly the content of a regular file inside the root or a directory listing; other statuses must be 400/403/404/405; a plain file under a plain root must be served (non-vacuity). The sibling directory's name is a look-alike of the root's (prefix extension, other letter case, trailing dot/space, doubled name); 40% of the cases replace served paths between two rounds of the same requests on one server (links to outside files/directories, to the sibling, inside links, removals).",
             "level_note": "Requests are delivered to ServeHTTP directly, so raw path shapes survive (a ServeMux in front would redirect some of them). registerStaticRoutes in cmd/glyph only resolves the directory and registers this handler and is not exercised separately.",
         },
         "rule": ("rapid-generated (tree of 6-16 entries, prefix, index name, listing flag, 2-12 URL paths, 0-3 SendFile targets); non-trivial = some request path resolves outside the root lexically or through a link, or contains a dot-dot segment; distinct = hash of the case"),
@@ -289,7 +289,7 @@ CHECKS = {
         "level": "exploration",
         "manifest": {
             "technique": "round-trip property-based testing (rapid) on generated programs and the repository's example files (token-sequence and position-stripped AST comparison), plus idempotence of fmt over generated byte strings",
-            "level_text": "fmt(fmt(s)) == fmt(s) for byte strings assembled from BOMs, CR, CRLF, unicode spaces, brackets, quotes, comment markers and raw bytes. For sources the parser accepts (generated programs in many layouts - comments in both styles, CRLF, lone CR, BOM, blank lines, multi-line literals whose continuation lines start with - or !, strings holding sigils, brackets, comment markers and every escape - and every .glyph file under examples/ and tests/): the token stream of fmt(s) equals that of s up to positions and runs of NEWLINE, fmt(s) is accepted and parses to the same tree; parse(compact(expand(s))), parseExpanded(expand(s)) and parse(s) are equal as position-stripped syntax trees.",
+            "level_text": "fmt(fmt(s)) == fmt(s) for byte strings assembled from BOMs, CR, CRLF, unicode spaces, brackets, quotes, comment markers and raw bytes. For sources the parser accepts (generated programs in many layouts - comments in both styles, CRLF, lone CR, BOM, blank lines, multi-line literals whose continuation lines start with - or !, strings holding sigils, brackets, comment markers and every escape - and every .glyph file under examples/ and tests/): the token stream of fmt(s) equals that of s up to positions and runs of NEWLINE, fmt(s) is accepted and parses to the same tree; parse(compact(expand(s))), parseExpanded(expand(s)) and parse(s) are equal as position-stripped syntax trees. Half of the generated programs are surrounded by other module items (type definitions incl. generics and unions, commands, cron tasks, event handlers, queue workers, WebSocket routes, constants, imports, route directives); string literals contain characters a formatter treats as layout outside strings (BOM, NBSP, form feed, U+2028, runs of blanks).",
             "level_note": "Two root causes make expand/compact lose programs on the pinned tree and are recorded as findings: names spelled like the 13 words of the expanded syntax (incl. the `@ route` form) and `--flag` command parameters; generated programs avoid them while listed and example files containing them are skipped and counted. Syntax trees are compared by reflection with ast.Pos ignored.",
         },
         "rule": ("rapid-generated byte strings (idempotence) and programs / example files (layout-only and round trip); non-trivial: idempotence - the first pass changes the input; programs - the source has comments, multi-line literals, a BOM, keyword-like names, or strings with sigils / comment markers / escapes; distinct = hash of the source"),
@@ -304,7 +304,7 @@ CHECKS = {
         "level": "fault_enumeration",
         "manifest": {
             "technique": "fault-sequence enumeration (complete up to length 2, length 3 in the thorough tier) and property-based generation (rapid) of longer edit sequences, through the real hotReloadManager on a listening socket and through the library ReloadManager with a real compiler and a model server",
-            "level_text": "The watched file starts as a valid version 0 served by a real hotReloadManager on a free port; each edit writes a valid version k, a lexer error, a parser error, a semantic compile error, an empty file or deletes the file, then calls reload() (what the watcher's debounce timer calls) and issues an HTTP GET on the port. Every version also declares an input type whose required field alternates with the version and a typed POST route; the failing edits declare a different type of the same name. After every edit the server must answer (the port is never left unbound) with the most recent version that loaded successfully, that version must still accept a body valid for ITS input type, and a valid edit must take effect at once; after an empty save either the previous version or the empty module (404) is accepted. Library level: ReloadManager.handleChanges with a parse+compile CompilerInterface and a model server that serves by executing the last bytecode it received, plus injected Reload failures: served version, exactly one ReloadEvent per change with Success iff the edit was valid, application state preserved.",
+            "level_text": "The watched file starts as a valid version 0 served by a real hotReloadManager on a free port; each edit writes a valid version k, a lexer error, a parser error, a semantic compile error, an empty file or deletes the file, then calls reload() (what the watcher's debounce timer calls) and issues an HTTP GET on the port. Every version also declares an input type whose required field alternates with the version and a typed POST route; the failing edits declare a different type of the same name. After every edit the server must answer (the port is never left unbound) with the most recent version that loaded successfully, that version must still accept a body valid for ITS input type, and a valid edit must take effect at once; after an empty save either the previous version or the empty module (404) is accepted. Library level: ReloadManager.handleChanges with a parse+compile CompilerInterface and a model server that serves by executing the last bytecode it received, plus injected Reload failures: served version, exactly one ReloadEvent per change with Success iff the edit was valid, application state preserved. 30% of the dev-server edits are followed by the next save 1-220 ms later, while the first reload is in flight (saves are atomic renames); a library unit with a gated compiler lets the generated case decide which of two overlapping reloads finishes first.",
             "level_note": "reload() is called directly rather than through fsnotify (event delivery is the OS's, debounce is a timer). 'Unreadable' is modelled by deleting the file because the sandbox runs as root, for whom mode 000 is readable. Whether an empty file counts as a successful load is not fixed by the property, so both readings are accepted.",
         },
         "rule": ("enumerated edit sequences over six edit kinds (length <= 2 quick, <= 3 thorough) and rapid-generated ones up to length 6 (dev server) / 10 (library); non-trivial = the sequence contains a failing edit followed by a request; distinct = hash of the sequence"),
